@@ -60,6 +60,9 @@ def exc_matches(kind, handler_kind):
     return False
 
 
+GHOST_CHOICES = {'choice', 'source_fails', 'db_fails', 'io_fails', 'asindices_fails', 'source_fails_in_load', 'in_opaque_dict'}
+
+
 class Obligation(object):
     def __init__(self, name, hyps, goal, where='', kind='post'):
         self.name, self.hyps, self.goal, self.where, self.kind = name, list(hyps), goal, where, kind
@@ -104,8 +107,11 @@ class Ctx(object):
             self.taken.append(d)
             self.facts.append(c if d else z3.Not(c))
             return d
-        can_t = self.feasible(c)
-        can_f = self.feasible(z3.Not(c))
+        if z3.is_const(c) and c.decl().kind() == z3.Z3_OP_UNINTERPRETED and c.decl().name().split('!')[0] in GHOST_CHOICES:
+            can_t = can_f = True         # a fresh ghost choice (a fault that may or may not happen ...): both sides feasible
+        else:
+            can_t = self.feasible(c)
+            can_f = self.feasible(z3.Not(c))
         if can_t and can_f:
             self.alternatives.append(self.taken + [False])
             d = True
@@ -407,6 +413,8 @@ class LoopSpec(object):
         self.on_exit = None          # callback(ls, iterations: z3 Int) when a stateless loop ran to exhaustion
         self.ghost = ()              # names in interp.ghost (SInt counters of the contract) havocked with the loop
         self.stop_after = False      # end the path when the loop exits (the contract covers the function up to here)
+        self.rebind = None           # callback(ls) after the havoc: (re)create interpreter-level objects the invariant talks about
+        self.after_body = None       # callback(ls) at the end of the symbolic iteration of a while loop (per-iteration obligations)
 
 
 class LoopState(object):
